@@ -311,4 +311,10 @@ pub fn replay(text: &str, coll: &Collector) {
     let la: Locale = format!("{}{}", ma.canon(), EXTS[ea]).parse().unwrap();
     let lb: Locale = format!("{}{}", mb.canon(), EXTS[eb]).parse().unwrap();
     check_locale_pair(&ma, &mb, ea, eb, &la, &lb, &a, &mut l, coll);
+    if parts[0] == parts[1] {
+        // the sweep meets equal texts as ONE object on both sides (x.matches(&x, ..)); aliasing is
+        // part of the case
+        check_pair(&ma, &ma, &a, &a, &mut l, coll);
+        check_locale_pair(&ma, &ma, ea, ea, &la, &la, &a, &mut l, coll);
+    }
 }
